@@ -2,7 +2,7 @@
    Property theorems only; proofs are in ProofC06.v.  Time is the clock of the scripted transport:
    it advances only inside ChannelIO.read and time.sleep (the interpreter's own latency is not
    modelled -- the claim is partial in that sense, see DESIGN.md). *)
-From TV Require Import Base BaseLemmas Utf8 Regex Channel ChannelLemmas ProofC02 ProofC03 ProofC06 SubIO ProofC06b.
+From TV Require Import Base BaseLemmas Utf8 Regex Channel ChannelLemmas ProofC02 ProofC03 ProofC06 SubIO ProofC06b ProofSession ProofC04b ProofLive.
 
 (* every operation called at time now with timeout T >= 0: has returned or raised by now + T,
    raises TimeoutError exactly AT now + T (never before), however the data trickles in *)
@@ -120,3 +120,46 @@ Theorem C06_subprocess_read_no_timeout_without_deadline :
   forall fuel now ready dies t, sub_read fuel None now ready dies <> STimeoutAt t.
 Proof. exact sub_read_no_timeout. Qed.
 Print Assumptions C06_subprocess_read_no_timeout_without_deadline.
+
+(* ---- timed operations are decided by what arrives strictly before the deadline (ready = that many bytes), for every
+        fragmentation and timing; channels without death strings *)
+
+(* read(n, T): exactly the next n bytes iff n bytes arrive in time; otherwise TimeoutError exactly at the deadline,
+   having consumed (and lost to the caller) everything that had arrived *)
+Theorem C06_read_n_decided_by_what_arrives_in_time :
+  forall n T c,
+  wfc c -> deaths c = [] -> 0 < n -> (0 < T)%Z ->
+  let r := ready (Some (now (io c) + T)%Z) (pend (io c)) in
+  match read (Z.of_nat n) (Some T) c with
+  | (Ret d, c') => n <= r /\ d = firstn n (cpend c) /\ cpend c = d ++ cpend c'
+  | (ETimeout, c') => r < n /\ now (io c') = (now (io c) + T)%Z /\ cpend c' = skipn r (cpend c)
+  | _ => False
+  end.
+Proof. exact read_n_timed_iff. Qed.
+Print Assumptions C06_read_n_decided_by_what_arrives_in_time.
+
+(* expect(literal, T): returns iff the literal occurs among those bytes, otherwise TimeoutError exactly at the deadline *)
+Theorem C06_expect_literal_decided_by_what_arrives_in_time :
+  forall l T c,
+  wfc c -> deaths c = [] -> (0 < T)%Z -> l <> [] ->
+  let R := firstn (ready (Some (now (io c) + T)%Z) (pend (io c))) (cpend c) in
+  match expect [SLit l] (Some T) c with
+  | (Ret r, c') => contains l R = true /\ er_idx r = 0 /\ er_match r = l
+  | (ETimeout, c') => contains l R = false /\ now (io c') = (now (io c) + T)%Z
+  | _ => False
+  end.
+Proof. exact expect_literal_timed_iff. Qed.
+Print Assumptions C06_expect_literal_decided_by_what_arrives_in_time.
+
+(* read_until_prompt(p, T): returns the output when the whole answer (ending in the only occurrence of the prompt)
+   arrives in time *)
+Theorem C06_read_until_prompt_live_under_deadline :
+  forall p tmo c S k,
+  wfc c -> deaths c = [] -> match tmo with Some T => (0 < T)%Z | None => True end ->
+  cpend c = S -> S <> [] -> only_tail (prompt_split (Some p)) S k ->
+  ready (deadline (now (io c)) tmo) (pend (io c)) = length S ->
+  exists c', read_until_prompt (Some p) tmo c = (Ret (text (firstn k S)), c') /\
+             pend (io c') = [] /\ same_cfg c c' /\ deaths c' = [] /\ wfc c' /\ in_time (now (io c)) tmo c' /\
+             now (io c') = last_time c.
+Proof. exact rup_timed_live. Qed.
+Print Assumptions C06_read_until_prompt_live_under_deadline.
